@@ -45,14 +45,14 @@ CHECKS = {
     "C13": (
         "E1-bfs",
         "model_checking",
-        "explicit-state BFS over all statement-level interleavings of transactional operations on two connections (three cursors), deduplicated on the model state (committed store, pending working copies, acceptable snapshot versions); after every transition every cursor reads every table and is compared with the model's view for its connection",
+        "explicit-state BFS over all statement-level interleavings of transactional operations on two connections (three cursors), deduplicated on the model state (committed store, pending working copies, acceptable snapshot versions); after every transition every cursor reads every table and is compared with the model's view for its connection; phase 2 repeats the search with long-lived cursor objects, phase 3 with every statement issued from a thread of its own and with `with connection:` exits as operations",
         "trusted: DuckDB MVCC for visibility; writes of the two connections never conflict by construction; not demanded: nested BEGIN, START TRANSACTION, which committed version a reader inside its own transaction sees",
         "explicit-state model checking (depth-bounded BFS over interleavings) against a committed-store + pending-set reference model",
     ),
     "C20": (
         "E1-bfs",
         "model_checking",
-        "explicit-state BFS to fixpoint over enter/exit sequences of the real fakesnow.patch() for 13 target lists and 2 exit modes (identity of every target checked before/inside/after, connections closed, re-entry, nested refusal), the full product of patch() options, and a complete enumeration of every argv token sequence up to the length bound over a 14-token alphabet through the real fakesnow.cli.main against a reference splitter written from argparse's grammar",
+        "explicit-state BFS to fixpoint over enter/exit sequences of the real fakesnow.patch() for 13 target lists and 2 exit modes (identity of every target checked before/inside/after, connections closed, re-entry, nested refusal), the full product of patch() options, and a complete enumeration of every argv token sequence up to the length bound over a 14-token alphabet through the real fakesnow.cli.main against a reference splitter written from argparse's grammar; plus opener thread x exit x storage scenarios for the connections made inside the block, and target argument lists with empty / falsy members through both CLI entry points",
         "trusted: Python import machinery, unittest.mock; the reference argv splitter is differential-tested against a locally built argparse parser in selftest/test_c20.py; not demanded: exception types, argv[0], abbreviated long options",
         "explicit-state model checking (BFS to fixpoint) of patch() + exhaustive bounded enumeration of argv sequences against a reference splitter",
     ),
@@ -94,7 +94,7 @@ CHECKS = {
     "C18": (
         "E4-crash",
         "fault_enumeration",
-        "trie of statement histories (DDL with comments/lengths, DML, MERGE, CREATE DATABASE + objects in it, BEGIN/COMMIT/ROLLBACK) up to the depth bound; per history four exit modes (clean with, exception in the body, sys.exit, os._exit) and one SIGKILL before every engine call of the last statement plus one right after it returned, each in a fresh interpreter on its own db_path directory; after reopening with a new patch() the raw-DuckDB catalog+data+side tables must equal what an independent connection saw as committed before exit, respectively the clean-exit observation of the history without or with the interrupted statement; in-memory control run in an empty cwd/HOME/TMPDIR",
+        "trie of statement histories (DDL with comments/lengths, DML, MERGE, CREATE DATABASE + objects in it, BEGIN/COMMIT/ROLLBACK) up to the depth bound; per history four exit modes (clean with, exception in the body, sys.exit, os._exit) and one SIGKILL before every engine call of the last statement plus one right after it returned, each in a fresh interpreter on its own db_path directory; after reopening with a new patch() the raw-DuckDB catalog+data+side tables must equal what an independent connection saw as committed before exit, respectively the clean-exit observation of the history without or with the interrupted statement; a history ending with an open transaction must leave what the history cut before that BEGIN leaves (`with connection:` exits are steps of the alphabet); the same under non-default connect options of the first program; in-memory control run in an empty cwd/HOME/TMPDIR",
         "trusted: SIGKILL keeps the page cache (no power-loss model); one DuckDB engine call is atomic thanks to its WAL; the reference observations come from clean exits of the same implementation, themselves checked against the pre-exit committed view",
         "exhaustive crash-point (fault) enumeration over all engine-call boundaries of all histories within the depth bound, with a differential committed-state oracle",
     ),
